@@ -110,8 +110,10 @@ struct WebSocketFrame
       frame.maskKey[3] = data[pos++];
     }
 
-    // Payload
-    if (data.size() < pos + payloadLen)
+    // Payload. Compare by subtraction: pos <= data.size() holds here, whereas
+    // pos + payloadLen wraps for a 64-bit length close to 2^64 and would let an
+    // absurd length through to resize() (std::length_error on the I/O thread).
+    if (data.size() - pos < payloadLen)
     {
       return std::nullopt; // incomplete
     }
